@@ -419,6 +419,8 @@ pub fn parse_line(line: &str) -> LineInfo {
             if sep.is_empty() {
                 let is_an_env = libs::re::re_contains(&token, r"^[a-zA-Z0-9_]+=.*$");
                 if !is_an_env && (c == '\'' || c == '"') {
+                    // `$FOO"bar"`: the quote ends the variable name
+                    token = delimit_trailing_name(&token);
                     sep = c.to_string();
                     continue;
                 }
@@ -442,6 +444,9 @@ pub fn parse_line(line: &str) -> LineInfo {
                 if sep == "\"" || sep == "'" {
                     token.push('\\');
                 }
+            } else if semi_ok && sep == "\"" && i > 0 && line.chars().nth(i - 1) == Some('"') {
+                // `"$FOO"bar`: the closing quote ended the variable name
+                token = delimit_trailing_name(&token);
             }
             token.push(c);
         }
@@ -470,6 +475,12 @@ pub fn parse_line(line: &str) -> LineInfo {
     }
 
     LineInfo { tokens: result, is_complete: is_line_complete }
+}
+
+/// Text is about to be glued to `token` across a quote boundary: write a
+/// `$NAME` at its end as `${NAME}`, so that the name does not grow.
+fn delimit_trailing_name(token: &str) -> String {
+    libs::re::replace_all(token, r"\$([A-Za-z0-9_]+)$", "$${${1}}")
 }
 
 /// Split a word that carries several redirections (`>a>b`, `2>e>o`,
